@@ -33,7 +33,8 @@ VERIF = Path(__file__).resolve().parent.parent
 REPO = Path(os.environ.get("QCEL_REPO", "/repo"))
 LEAN = VERIF / "lean"
 WORK = VERIF / ".work"
-EVIDENCE = VERIF / "evidence"
+# evidence of runs against a scratch copy (mutation trials) must never overwrite the evidence of /repo runs
+EVIDENCE = VERIF / "evidence" if str(REPO) == "/repo" else WORK / "evidence_scratch"
 REPLAYS = VERIF / "replays"
 CORPUS = VERIF / "corpus"
 KNOWN = VERIF / "known_findings.json"
@@ -285,7 +286,7 @@ def write_replay(prop: str, payload: Dict[str, Any]) -> Path:
 
 
 def write_evidence(prop: str, ev: Dict[str, Any]):
-    EVIDENCE.mkdir(exist_ok=True)
+    EVIDENCE.mkdir(parents=True, exist_ok=True)
     p = EVIDENCE / f"{prop}.json"
     p.write_text(json.dumps(ev, indent=1, default=str))
     try:
